@@ -709,6 +709,10 @@ impl Family for Fam {
         )
     }
 
+    fn realtime(case: &str) -> bool {
+        parse_case(case).map_or(false, |c| c.flavor != 0)
+    }
+
     fn run(case: &str) -> Outcome {
         let cfg = match parse_case(case) {
             Some(c) => c,
